@@ -189,8 +189,11 @@ def probe_lists(t, cls):
 
 
 def work(chunk):
+    from vf.core import touch_bases
+
     t = Tally()
     for cls in chunk:
+        touch_bases(cls)
         for c in S.children(cls):
             if c.kind == "unsup":
                 continue
@@ -226,7 +229,8 @@ def run(ctx):
     }
     return {"tally": tally, "coverage": cov, "assumptions": [
         "the 24 children declared Types.Unsupported at the pinned commit are documented as not implemented and are not demanded",
-        "class-specific validate_args rules are honoured through a hint table when building the smallest instance"]}
+        "class-specific validate_args rules are honoured through a hint table when building the smallest instance",
+        "before a class is probed the introspection properties (spec, listaggregates, ...) of all its bases are read, root first"]}
 
 
 def replay(ctx, case):
